@@ -283,6 +283,26 @@ class IfToTernary(ast.NodeTransformer):
         return n
 
 
+class AugToPlain(ast.NodeTransformer):
+    """`x += e` -> `x = x + e` for plain names and self attributes (not subscripts: evaluated twice)"""
+    def visit_AugAssign(self, n):
+        import copy
+        if isinstance(n.target, ast.Name) or (isinstance(n.target, ast.Attribute) and isinstance(n.target.value, ast.Name)):
+            load = copy.deepcopy(n.target)
+            load.ctx = ast.Load()
+            return ast.Assign(targets=[n.target], value=ast.BinOp(left=load, op=n.op, right=n.value))
+        return n
+
+
+class PlainToAug(ast.NodeTransformer):
+    """`x = x + e` -> `x += e`"""
+    def visit_Assign(self, n):
+        if len(n.targets) == 1 and isinstance(n.value, ast.BinOp) and isinstance(n.targets[0], (ast.Name, ast.Attribute)) \
+                and ast.unparse(n.value.left) == ast.unparse(n.targets[0]) and isinstance(n.value.op, (ast.Add, ast.Sub, ast.Mult)):
+            return ast.AugAssign(target=n.targets[0], op=n.value.op, value=n.value.right)
+        return n
+
+
 class AddDocstrings(ast.NodeTransformer):
     """every function without a docstring gets one (maintainers document code; rules must not count a docstring as a statement)"""
     def visit_FunctionDef(self, n):
@@ -349,6 +369,10 @@ def transform(root, kind):
                 tree = TernaryToIf().visit(tree)
             elif kind == "if2ternary":
                 tree = IfToTernary().visit(tree)
+            elif kind == "aug2plain":
+                tree = AugToPlain().visit(tree)
+            elif kind == "plain2aug":
+                tree = PlainToAug().visit(tree)
             elif kind == "docstring":
                 tree = AddDocstrings().visit(tree)
             elif kind == "annotate":
@@ -386,7 +410,7 @@ def transform(root, kind):
 def main():
     kinds = [a for a in sys.argv[1:] if not a.startswith("--")] or ["all"]
     if kinds == ["all"]:
-        kinds = ["unparse", "flipcmp", "invertif", "rename", "rename2", "rename3", "extractcond", "cellify", "earlyreturn", "attrrename", "docstring", "annotate", "ternary2if", "if2ternary"]
+        kinds = ["unparse", "flipcmp", "invertif", "rename", "rename2", "rename3", "extractcond", "cellify", "earlyreturn", "attrrename", "docstring", "annotate", "ternary2if", "if2ternary", "aug2plain", "plain2aug"]
     bad = 0
     for kind in kinds:
         tmp = tempfile.mkdtemp(prefix="rxsa_rf_")
